@@ -32,8 +32,16 @@ def splitWsGo : List Char → List Char → List (List Char)
 
 def splitWs (l : List Char) : List (List Char) := splitWsGo l []
 
+/-- python `str.rstrip()`: without the trailing blanks -/
+def stripRight : List Char → List Char
+  | [] => []
+  | c :: cs =>
+    match stripRight cs with
+    | [] => if isWs c then [] else [c]
+    | r => c :: r
+
 /-- python `str.strip()` -/
-def strip (l : List Char) : List Char := ((l.dropWhile isWs).reverse.dropWhile isWs).reverse
+def strip (l : List Char) : List Char := stripRight (l.dropWhile isWs)
 
 /-- the text before the first `#`, and the text after it when there is one -/
 def splitHash : List Char → List Char × Option (List Char)
@@ -107,9 +115,9 @@ def readUMicro (l : List Char) : Option Nat :=
 
 def signed (rd : List Char → Option Nat) (l : List Char) : Option Int :=
   match l with
-  | '-' :: r => (rd r).map (fun n => -(n : Int))
-  | '+' :: r => (rd r).map (fun n => (n : Int))
-  | r => (rd r).map (fun n => (n : Int))
+  | '-' :: r => (rd r).map (fun (n : Nat) => -(Int.ofNat n))
+  | '+' :: r => (rd r).map (fun (n : Nat) => Int.ofNat n)
+  | r => (rd r).map (fun (n : Nat) => Int.ofNat n)
 
 /-- python `float(token)`, in micro-units -/
 def readMicro (s : String) : Option Int := signed readUMicro s.toList
@@ -257,16 +265,24 @@ def saveLines (a : Atoms) (st : Style) : List Line :=
 
 def termsInRange (n : Nat) (t : TermTable) : Bool := t.terms.all (fun t => t.atoms.all (· < n))
 
+/-- every tuple of the (n, k) integer array has k entries -/
+def arityOk (k : Nat) (t : TermTable) : Bool := t.terms.all (fun t => t.atoms.length == k)
+
 /-- every string the writer prints: labels and coefficient strings -/
 def allStrings (a : Atoms) : List String :=
   a.typeLabels ++ a.pairCoeffs ++ a.bonds.coeffs ++ a.angles.coeffs ++ a.dihedrals.coeffs ++ a.impropers.coeffs
 
+/-- a tilted cell is written only if its first vector is along x and its second in the xy plane -/
+def cellRejected : Option Mat3 → Bool
+  | some m => !m.isOrtho && (m.a.y != 0 || m.a.z != 0 || m.b.z != 0)
+  | none => false
+
 /-- the exception the writer raises, if any (in the order the code reaches them) -/
 def saveCheck (a : Atoms) : Option Err :=
   if (allStrings a).any hasNewline then some .domain      -- would change the line structure: not modelled
-  else if (match a.cell with
-      | some m => !m.isOrtho && (m.a.y != 0 || m.a.z != 0 || m.b.z != 0)
-      | none => false) then some (.reject "triclinic")      -- not lower-triangular
+  else if !(arityOk 2 a.bonds && arityOk 3 a.angles && arityOk 4 a.dihedrals && arityOk 4 a.impropers) then
+    some .domain                                            -- not (n, k) arrays: not modelled
+  else if cellRejected a.cell then some (.reject "triclinic")
   else if a.typeLabels.length < a.typeMasses.length then some .index           -- label_atoms(i)
   else if a.atoms.any (fun r => r.ty ≥ a.typeLabels.length) then some .index   -- label_atoms(atom_types[i])
   else if !(termsInRange a.atoms.length a.bonds && termsInRange a.atoms.length a.angles
@@ -281,9 +297,8 @@ def saveLmp (a : Atoms) (st : Style) : Except Err (List Line) :=
 
 /-! ## the reader (`load_lmpdat`): the state machine over lines -/
 
-structure PState where
-  cur : Option Sec := none          -- current_section
-  start : Bool := false             -- start_section
+/-- what the loop accumulates -/
+structure PData where
   masses : List (String × Option String) := []    -- (tup[1], comment) per Masses line
   pair : List String := []
   bond : List String := []
@@ -301,6 +316,12 @@ structure PState where
   xy : Int := 0
   xz : Int := 0
   yz : Int := 0
+deriving Repr, Inhabited, DecidableEq
+
+structure PState where
+  cur : Option Sec := none          -- current_section
+  start : Bool := false             -- start_section
+  d : PData := {}
 deriving Repr, Inhabited, DecidableEq
 
 /-- `"   # " + comment`, or nothing -/
@@ -326,7 +347,7 @@ def readLoHi (toks : List String) : Except Err Int :=
   | _ => .error .index
 
 /-- one data line of a section -/
-def push (sec : Sec) (s : PState) (l : Line) : Except Err PState :=
+def push (sec : Sec) (s : PData) (l : Line) : Except Err PData :=
   match sec with
   | .masses =>
     match l.tokens with
@@ -344,10 +365,19 @@ def push (sec : Sec) (s : PState) (l : Line) : Except Err PState :=
   | .impropers => .ok { s with impropers := s.impropers ++ [l.tokens] }
 
 /-- a non-blank line while no section is active: only the box / tilt keyword lines mean something -/
-def header (s : PState) (l : Line) : Except Err PState :=
-  if hasInfix ["xlo", "xhi"] l.tokens then (readLoHi l.tokens).map (fun d => { s with cellx := d })
-  else if hasInfix ["ylo", "yhi"] l.tokens then (readLoHi l.tokens).map (fun d => { s with celly := d })
-  else if hasInfix ["zlo", "zhi"] l.tokens then (readLoHi l.tokens).map (fun d => { s with cellz := d })
+def header (s : PData) (l : Line) : Except Err PData :=
+  if hasInfix ["xlo", "xhi"] l.tokens then
+    match readLoHi l.tokens with
+    | .ok d => .ok { s with cellx := d }
+    | .error e => .error e
+  else if hasInfix ["ylo", "yhi"] l.tokens then
+    match readLoHi l.tokens with
+    | .ok d => .ok { s with celly := d }
+    | .error e => .error e
+  else if hasInfix ["zlo", "zhi"] l.tokens then
+    match readLoHi l.tokens with
+    | .ok d => .ok { s with cellz := d }
+    | .error e => .error e
   else if hasInfix ["xy", "xz", "yz"] l.tokens then
     match (l.tokens.take 3).map readMicro with
     | [some a, some b, some c] => .ok { s with xy := a, xz := b, yz := c }
@@ -365,9 +395,11 @@ def step (s : PState) (l : Line) : Except Err PState :=
         -- a blank line right after a section name does not end the section; the next one does
         .ok { s with cur := if s.start then s.cur else none, start := false }
       else
-        match s.cur with
-        | some sec => push sec s l
-        | none => header s l
+        match (match s.cur with
+          | some sec => push sec s.d l
+          | none => header s.d l) with
+        | .ok d => .ok { s with d := d }
+        | .error e => .error e
 
 def run : PState → List Line → Except Err PState
   | s, [] => .ok s
@@ -378,9 +410,26 @@ def run : PState → List Line → Except Err PState
 
 /-! ### after the loop: arrays, 0-based ids, cell, elements, labels -/
 
+def mapOpt {α β} (f : α → Option β) : List α → Option (List β)
+  | [] => some []
+  | x :: xs =>
+    match f x, mapOpt f xs with
+    | some y, some ys => some (y :: ys)
+    | _, _ => none
+
+def mapExc {α β} (f : α → Except Err β) : List α → Except Err (List β)
+  | [] => .ok []
+  | x :: xs =>
+    match f x with
+    | .error e => .error e
+    | .ok y =>
+      match mapExc f xs with
+      | .error e => .error e
+      | .ok ys => .ok (y :: ys)
+
 /-- `np.array(rows, dtype=…)`: every token must parse and the rows must have one length -/
 def readTable (rd : String → Option Int) (rows : List (List String)) : Except Err (List (List Int)) :=
-  match rows.mapM (fun r => r.mapM rd) with
+  match mapOpt (mapOpt rd) rows with
   | none => .error (.reject "value")
   | some t =>
     match t with
@@ -410,14 +459,14 @@ def termOfRow (r : List Int) : Except Err Term :=
   match r with
   | _ :: ty :: rest => do
     let ty ← natOf (ty - 1)
-    let ids ← rest.mapM (fun x => natOf (x - 1))
+    let ids ← mapExc (fun x => natOf (x - 1)) rest
     pure ⟨ids, ty, []⟩
   | _ => .error .index
 
 def termsOf (rows : List (List String)) : Except Err (List (List Int)) := readTable readInt rows
 
 /-- cell reconstruction from the lengths and tilt factors (micro-units) -/
-def cellOf (s : PState) : Option Mat3 :=
+def cellOf (s : PData) : Option Mat3 :=
   if s.cellx > 0 && s.celly > 0 && s.cellz > 0 then
     if s.xy != 0 || s.xz != 0 || s.yz != 0 then
       some ⟨⟨ofMicro s.cellx, 0, 0⟩, ⟨ofMicro s.xy, ofMicro s.celly, 0⟩, ⟨ofMicro s.xz, ofMicro s.yz, ofMicro s.cellz⟩⟩
@@ -437,8 +486,8 @@ def labelsOf (comments : List (Option String)) (elements : List String) : List S
 
 /-- everything `load_lmpdat` does after the loop.  `guess` is `guess_elements_from_masses` (property C14):
     `none` when it raises. -/
-def finish (guess : List Rat → Option (List String)) (s : PState) (st : Style) : Except Err Atoms := do
-  let masses ← match s.masses.mapM (fun m => readMicro m.1) with
+def finish (guess : List Rat → Option (List String)) (s : PData) (st : Style) : Except Err Atoms := do
+  let masses ← match mapOpt (fun m => readMicro m.1) s.masses with
     | some m => pure (m.map ofMicro)
     | none => throw (.reject "value")
   let atomTable ← readTable readMicro s.atoms
@@ -447,13 +496,13 @@ def finish (guess : List Rat → Option (List String)) (s : PState) (st : Style)
   let dihedrals ← termsOf s.dihedrals
   let impropers ← termsOf s.impropers
   if atomTable.isEmpty then throw .index          -- `atoms[:, 1]` on an empty 1-d array
-  let atoms ← atomTable.mapM (atomOfRow st)
+  let atoms ← mapExc (atomOfRow st) atomTable
   let elements := elementsOf guess masses
   let labels := labelsOf (s.masses.map (·.2)) elements
-  let bonds ← bonds.mapM termOfRow
-  let angles ← angles.mapM termOfRow
-  let dihedrals ← dihedrals.mapM termOfRow
-  let impropers ← impropers.mapM termOfRow
+  let bonds ← mapExc termOfRow bonds
+  let angles ← mapExc termOfRow angles
+  let dihedrals ← mapExc termOfRow dihedrals
+  let impropers ← mapExc termOfRow impropers
   pure {
     atoms := atoms
     bonds := ⟨bonds, s.bond, []⟩
@@ -470,7 +519,7 @@ def finish (guess : List Rat → Option (List String)) (s : PState) (st : Style)
 /-- `load_lmpdat(f, atom_format=st)` on the lines of `f` -/
 def loadLmp (guess : List Rat → Option (List String)) (lines : List Line) (st : Style) : Except Err Atoms :=
   match run {} lines with
-  | .ok s => finish guess s st
+  | .ok s => finish guess s.d st
   | .error e => .error e
 
 /-! ## what one trip through a file does to a structure -/
